@@ -1,7 +1,7 @@
 """C02 — fit/predict never alter hyper-parameters or caller data, even when fit fails."""
 import sys
 
-from core import Corr, Violation
+from core import Corr, Violation, run_driver
 from extract import lifecycle_gen as lg
 from extract import skeleton as sk
 from extract import diag
@@ -11,7 +11,7 @@ ID = "C02"
 LEAN_TARGETS = ["MlVerif.Gen.C02", "MlVerif.Model.Flow", "MlVerif.Model.Lifecycle", "MlVerif.Lemmas.Flow",
                 "MlVerif.Lemmas.Lifecycle", "MlVerif.Properties.C02"]
 PROPERTY_FILE = "MlVerif/Properties/C02.lean"
-DRIVER = None
+DRIVER = "Drivers/C02.lean"
 TRUSTED = [
     "harness/extract/skeleton.py: the translation of Python method bodies into the IR `Prog Act` (inlining of "
     "methods of the class hierarchy, module-level mlinsights functions, nested functions; bounded depth); its "
@@ -29,7 +29,9 @@ ASSUMPTIONS = [
 ]
 RULE = ("correspondence: every menu estimator x method is run on real data with attribute assignment traced "
         "(assignments performed by mlinsights code only); the observed hyper-parameter / attribute writes must be "
-        "contained in what the regenerated skeleton of that method predicts. search: histories of successful and "
+        "contained in what the regenerated skeleton of that method predicts, and the ORDERED sequence of assignments "
+        "must be a trace the skeleton can emit (decided by the Lean matcher `Trace.accepts`, proved never to reject "
+        "an emitted trace). search: histories of successful and "
         "failing calls (invalid data of 4 kinds; inner estimator raising on its k-th fit for every k) with "
         "get_params snapshots and byte snapshots of X, y, sample_weight before/after every call, and a later "
         "successful fit compared with a fresh instance. Non-trivial = a call that executed (success or the "
@@ -67,13 +69,13 @@ class SetattrTrace:
         def tracer(obj, name, value):
             f = sys._getframe(1)
             if f.f_code.co_filename.startswith(root):
-                ev.append(("set", name, f.f_code.co_name))
+                ev.append(("set", name, f.f_code.co_name, id(obj)))
             object.__setattr__(obj, name, value)
 
         def dtracer(obj, name):
             f = sys._getframe(1)
             if f.f_code.co_filename.startswith(root):
-                ev.append(("del", name, f.f_code.co_name))
+                ev.append(("del", name, f.f_code.co_name, id(obj)))
             object.__delattr__(obj, name)
         self.had_set = "__setattr__" in self.cls.__dict__
         self.had_del = "__delattr__" in self.cls.__dict__
@@ -116,9 +118,11 @@ def correspond(ctx):
     warnings.filterwarnings("ignore")
     corr = Corr()
     corr.rule = RULE
-    _, classes = lg.build(ctx.repo)
+    _, classes = lg.gen_c02(ctx.repo)
+    tables = lg.gen_c02.tables
     pred = predicted_writes(classes)
     menu = _menu.build_menu()
+    lines, line_info = [], []
     for e in menu:
         if e.slow and not ctx.thorough:
             continue
@@ -142,8 +146,24 @@ def correspond(ctx):
                     corr.hit("method-not-in-ir")
                     continue
                 pw, aw, params = pred[key]
-                obs_p = sorted({n for k, n, _ in tr.events if n in params})
-                obs_a = sorted({n for k, n, _ in tr.events if n not in params})
+                own = [ev for ev in tr.events if ev[3] == id(est)]
+                obs_p = sorted({ev[1] for ev in own if ev[1] in params})
+                obs_a = sorted({ev[1] for ev in own if ev[1] not in params})
+                # ordered trace -> Lean matcher (can the skeleton emit exactly this sequence?)
+                tab = tables.get(key)
+                if tab is not None:
+                    toks, unknown = [], []
+                    for kind, name, _, _ in own:
+                        if name in params:
+                            toks.append("P%d" % tab["params"][name]) if name in tab["params"] else unknown.append(name)
+                        elif name in tab["attrs"]:
+                            toks.append(("A%d" if kind == "set" else "D%d") % tab["attrs"][name])
+                        else:
+                            unknown.append(name)
+                    if not unknown:
+                        lines.append("trace %d %s" % (tab["index"], ",".join(toks) if toks else "-"))
+                        line_info.append({"estimator": e.name, "method": mname, "error": err,
+                                          "events": ["%s %s" % (k, n) for k, n, _, _ in own][:60]})
                 corr.case((e.name, mname, variant), nontrivial=True,
                           sample={"estimator": e.name, "method": mname, "observed_param_writes": obs_p,
                                   "observed_attr_writes": obs_a, "predicted_param_writes": sorted(pw)}
@@ -158,6 +178,14 @@ def correspond(ctx):
                     corr.disagree("trace-containment", {"estimator": e.name, "method": mname},
                                   {"predicted_param_writes": sorted(pw), "predicted_attr_writes": sorted(aw)},
                                   {"unpredicted_param_writes": miss_p, "unpredicted_attr_writes": miss_a})
+    if lines:
+        out = run_driver(DRIVER, lines)
+        for info, got in zip(line_info, out):
+            corr.hit("trace:%s" % got)
+            corr.hit("trace-length>=3") if len(info["events"]) >= 3 else None
+            if got != "accept":
+                corr.disagree("trace-membership", info, got,
+                              "the real call performed this sequence of assignments; no execution of the skeleton emits it")
     return corr
 
 
